@@ -22,7 +22,8 @@ PROPS = {
         gen_funcs=["spend_in_state_ok", "spend_by_itself_ok", "block_by_itself_ok", "validate_sashimi_range", "get_block_subsidy"], harness="c01",
         code_deps={"Props.GenTie.SpendRule": ["spend_in_state_ok"],
                    "Props.GenTie.SpendByItselfRule": ["spend_by_itself_ok", "validate_sashimi_range", "get_block_subsidy"],
-                   "Props.GenTie.BlockByItselfRule": ["block_by_itself_ok"]},
+                   "Props.GenTie.BlockByItselfRule": ["block_by_itself_ok"],
+                   "Props.GenTie.TargetRule": ["calc_target_rule"]},
         assumptions=["signature validity is an oracle in the driver (each listed triple is checked with python-ecdsa by the harness)",
                      "scrypt replaced by sha256(password+salt) in harness and driver",
                      "full validation = add_block above the checkpoint horizon (horizon lowered to -1 or 2 in the harness)"]),
@@ -40,13 +41,14 @@ PROPS = {
     "C05": dict(
         lean_core=["Props.GenTie.Params", "Props.C05"],
         lean_code=["Props.GenTie.Target", "Props.C05Code", "Props.GenTie.SummaryRule", "Props.GenTie.HeaderRule", "Props.GenTie.BlockRule",
-                   "Props.GenTie.BlockByItselfRule"],
+                   "Props.GenTie.BlockByItselfRule", "Props.GenTie.TargetRule"],
         gen_funcs=["calculate_new_target", "select_block_height", "summary_in_state_ok", "header_by_itself_ok", "block_in_state_ok",
-                   "block_by_itself_ok"], harness="c05",
+                   "block_by_itself_ok", "calc_target_rule"], harness="c05",
         code_deps={"Props.GenTie.Target": ["calculate_new_target", "select_block_height"],
                    "Props.C05Code": ["calculate_new_target", "select_block_height"],
                    "Props.GenTie.SummaryRule": ["summary_in_state_ok"], "Props.GenTie.HeaderRule": ["header_by_itself_ok"],
-                   "Props.GenTie.BlockRule": ["block_in_state_ok"], "Props.GenTie.BlockByItselfRule": ["block_by_itself_ok"]},
+                   "Props.GenTie.BlockRule": ["block_in_state_ok"], "Props.GenTie.BlockByItselfRule": ["block_by_itself_ok"],
+                   "Props.GenTie.TargetRule": ["calc_target_rule"]},
         assumptions=["as C01", "elapsed time passed to calculate_new_target is non-negative (timestamps increase along validated chains)"]),
     "C03": dict(
         lean_core=["Props.C03", "Props.C03Balance"], lean_code=[], gen_funcs=[], harness="c03",
